@@ -175,7 +175,13 @@ surv0_ctx_recv(void *arg, nni_aio *aio)
 	}
 
 	timeout = nni_aio_get_timeout(aio);
-	if ((timeout < 0) || ((now + timeout) > ctx->expire)) {
+	if (aio->a_use_expire) {
+		// an absolute expiration set by the caller takes the place
+		// of the timeout
+		if (aio->a_expire > ctx->expire) {
+			nni_aio_set_expire(aio, ctx->expire);
+		}
+	} else if ((timeout < 0) || ((now + timeout) > ctx->expire)) {
 		// limit the timeout to the survey time
 		nni_aio_set_expire(aio, ctx->expire);
 	}
